@@ -939,7 +939,7 @@ Proof.
   pose proof (build_arm_ids _ _ _ _ _ _ _ Harm) as (Hle & _ & _).
   unfold handed_out. cbn [next_of]. rewrite Hnext. set (fresh := nseq (m_next cur) (nr' - m_next cur)).
   assert (Hfresh : forall r, In r fresh <-> m_next cur <= r < nr') by (intro r; unfold fresh; rewrite in_nseq; lia).
-  set (V := m_version m').
+  rewrite Hver. set (V := m_version cur + 1).
   assert (HT : forall T2 r, In r T -> In r (T ++ T2)) by (intros T2 r Hr0; apply in_or_app; left; exact Hr0).
   destruct o as [sizes|sizes|upd gone|removed upd news|rew|groups|n| |v]; cbn [lower] in Hl; try discriminate;
     cbn [spec_step taint_step].
@@ -952,7 +952,7 @@ Proof.
     + split; [apply I1; exact Hf'|]. split; intros x Hx.
       * eapply row_ok_insert; [exact I4 | intros r Hr0; apply Hfresh in Hr0; lia | intros r Hr0; exact Hr0 | exact (I2 f' x Hf' Hx)].
       * eapply row_ok_insert; [exact I4 | intros r Hr0; apply Hfresh in Hr0; lia | intros r Hr0; exact Hr0 | exact (I3 f' x Hf' Hx)].
-    + unfold V. rewrite Hver in *. destruct (appended_frags _ _ _ _ _ _ _ H1 H2 f' Hf') as (W & Hd & Hrows).
+    + unfold V. destruct (appended_frags _ _ _ _ _ _ _ H1 H2 f' Hf') as (W & Hd & Hrows).
       split; [exact W|]. 
       assert (Hall : forall x, In x (prows f') -> row_ok (insert (m_version cur + 1) L fresh) T true x).
       { intros [r cu] Hx. destruct (Hrows _ Hx) as [Hb Ecu]. cbn [fst snd] in *. subst cu.
@@ -964,7 +964,7 @@ Proof.
     inversion Harm; subst final nr1; clear Harm. rewrite app_nil_r.
     apply Inv_intro; [exact Hst | | rewrite Hnext; apply (lget_insert_bound L V fresh (m_next cur) nr' I4 Hle); intros r Hr0; apply Hfresh in Hr0; lia].
     intros f' Hf'. apply Hfin in Hf'.
-    unfold V. rewrite Hver in *. destruct (appended_frags _ _ _ _ _ _ _ H1 H2 f' Hf') as (W & Hd & Hrows).
+    unfold V. destruct (appended_frags _ _ _ _ _ _ _ H1 H2 f' Hf') as (W & Hd & Hrows).
     split; [exact W|].
     assert (Hall : forall x, In x (prows f') -> row_ok (insert (m_version cur + 1) L fresh) T true x).
     { intros [r cu] Hx. destruct (Hrows _ Hx) as [Hb Ecu]. cbn [fst snd] in *. subst cu.
@@ -1023,8 +1023,8 @@ Proof.
       pose proof (same_rows_wf _ _ Hsame (I1 f Hf)) as W'.
       split; [exact W'|]. split; intros x Hx.
       * rewrite (same_rows_prows _ _ Hsame) in Hx.
-        eapply row_ok_insert; [exact HL1 | intros r Hr0; apply Hfresh in Hr0; lia | auto |].
-        apply row_ok_touch_created. eapply I2; eauto.
+        eapply (row_ok_insert L1 T); [exact HL1 | intros r Hr0; apply Hfresh in Hr0; lia | intros r Hr0; apply HT; exact Hr0 |].
+        unfold L1. apply row_ok_touch_created. exact (I2 f x Hf Hx).
       * (* visible afterwards: not one of the rewritten rows *)
         assert (Hnot : ~ In (fst x) carried).
         { apply (vrows_pos _ _ W') in Hx as (o & Ho & Hdv). rewrite (same_rows_prows _ _ Hsame) in Ho.
@@ -1033,10 +1033,10 @@ Proof.
           rewrite forallb_forall in Hgone. specialize (Hgone f Hf). rewrite Hrem in Hgone. cbn [orb] in Hgone.
           pose proof (forallb_nseq _ _ o Hgone Hlt) as Hp. cbn beta in Hp. rewrite <- Edv, Hdv, En in Hp. cbn [orb] in Hp.
           apply negb_true_iff in Hp. apply memN_false in Hp. exact Hp. }
-        eapply row_ok_insert; [exact HL1 | intros r Hr0; apply Hfresh in Hr0; lia | auto |].
-        apply row_ok_touch_vis; [|exact Hnot]. eapply I3; [exact Hf|]. eapply same_rows_vrows; eauto.
+        eapply (row_ok_insert L1 T); [exact HL1 | intros r Hr0; apply Hfresh in Hr0; lia | intros r Hr0; apply HT; exact Hr0 |].
+        unfold L1. apply row_ok_touch_vis; [|exact Hnot]. apply (I3 f x Hf). eapply same_rows_vrows; eauto.
     + (* a new fragment: rewritten rows, then inserted rows *)
-      unfold V in *. rewrite Hver in *.
+      unfold V in *.
       destruct (updated_frags _ _ _ _ _ _ _ _ H1 H2 f' Hf') as (W & Hd & Hrows).
       split; [exact W|].
       assert (Hall : forall x, In x (prows f') ->
@@ -1049,7 +1049,7 @@ Proof.
           exists c0, (m_version cur + 1). cbn [fst snd]. rewrite lget_insert.
           assert (E : memN r fresh = false) by (apply memN_false; intro C; apply Hfresh in C; lia). rewrite E.
           unfold L1. rewrite lget_touch. assert (E2 : memN r carried = true) by (apply memN_true; exact Hc). rewrite E2.
-          unfold created_of. rewrite G. cbn [fst]. repeat split; auto.
+          unfold created_of. rewrite G. cbn [fst]. split; [reflexivity|]. split; [|intros _; reflexivity].
           intro Hn. assert (Ha : addr_ok cur r = true).
           { destruct (addr_ok cur r) eqn:Ea; [reflexivity|]. exfalso. apply Hn. apply in_or_app. right. apply in_or_app. left.
             apply filter_In. split; [exact Hc | rewrite Ea; reflexivity]. }
@@ -1081,7 +1081,7 @@ Proof.
     rewrite (replace_first_lowered _ (refreshed_id (m_version cur + 1) (m_version cur)) _ Hnd rew f Hf) in Ef.
     pose proof (I1 f Hf) as Wf.
     rewrite forallb_forall in Hpos. specialize (Hpos f Hf). cbn zeta in Hpos.
-    unfold V. rewrite Hver.
+    unfold V.
     destruct (entry_for rew f) as [x0|] eqn:Een.
     + (* rewritten fragment *)
       subst f'. destruct (refreshed_rows (m_version cur + 1) (m_version cur) f x0 Wf) as [W' Hrows].
@@ -1139,4 +1139,146 @@ Proof.
     inversion Hl; subst t; clear Hl. cbn [build_arm] in Harm. inversion Harm; subst final nr'; clear Harm. rewrite app_nil_r.
     apply Inv_intro; [exact Hst | | intros r0 Hr0; pose proof (I4 r0 Hr0); lia].
     intros f' Hf'. apply Hfin in Hf'. split; [apply I1; exact Hf'|]. split; intros x Hx; [eapply I2 | eapply I3]; eauto.
+Qed.
+
+(* ================================================================ creation and restore *)
+Lemma create_inv o m' :
+  step true [] o = Ok m' ->
+  Inv m' (spec_step (m_version m') None (handed_out [] m') [] [] o) ([] ++ taint_step None (handed_out [] m') o)
+  /\ m_version m' = 1.
+Proof.
+  cbn [step]. destruct o; try discriminate. intro H. unfold build_manifest in H. cbn [andb negb is_overwrite] in H.
+  apply bind_ok in H as ([final onr'] & Harm & H). cbn [fst snd] in H.
+  destruct ((existsb has_ids (sort_frags final) || true) && negb (forallb has_ids (sort_frags final))); [discriminate|].
+  apply bind_ok in H as (mf & _ & H).
+  cbn [existing_of start_fid start_nr new_version_of is_overwrite build_arm] in Harm.
+  apply bind_ok in Harm as ([nr1 nf1] & H1 & Harm). cbn [fst snd] in Harm. apply bind_ok in Harm as (nf2 & H2 & Harm).
+  inversion Harm; subst final onr'; clear Harm. inversion H; subst m'; clear H.
+  cbn [m_version m_next new_version_of next_of spec_step taint_step app]. split; [|reflexivity].
+  unfold handed_out. cbn [next_of m_next]. rewrite N.sub_0_r.
+  apply Inv_intro; cbn [m_stable m_frags m_next].
+  - apply orb_true_r.
+  - intros f' Hf'. apply (proj1 (in_sort_frags _ _)) in Hf'.
+    destruct (appended_frags _ _ _ _ _ _ _ H1 H2 f' Hf') as (W & Hd & Hrows). split; [exact W|].
+    assert (Hall : forall x, In x (prows f') -> row_ok (insert 1 [] (nseq 0 nr1)) [] true x).
+    { intros [r cu] Hx. destruct (Hrows _ Hx) as [Hb Ecu]. cbn [fst snd] in *. subst cu.
+      apply row_ok_fresh_new. apply in_nseq. lia. }
+    split; intros x Hx; [apply row_ok_vis_false; apply Hall; exact Hx | apply Hall; apply in_vrows_prows; exact Hx].
+  - intros r Hr. rewrite lget_insert in Hr. destruct (memN r (nseq 0 nr1)) eqn:E; [|cbn in Hr; congruence].
+    apply memN_true in E. apply in_nseq in E. lia.
+Qed.
+
+Lemma restore_inv latest old L T : Inv old L T -> Inv (restore latest old) L T.
+Proof.
+  intros (I0 & I1 & I2 & I3 & I4). unfold Inv. cbn [restore m_stable m_frags m_next].
+  split; [exact I0|]. split; [exact I1|]. split; [exact I2|]. split; [exact I3|].
+  intros r Hr. specialize (I4 r Hr). lia.
+Qed.
+
+(* ================================================================ the whole history *)
+Definition SInv (s : sstate) : Prop :=
+  let '(h, L, lh, T) := s in
+  match h with
+  | [] => L = [] /\ lh = [] /\ T = []
+  | latest :: _ =>
+      lfind lh (m_version latest) = Some L /\
+      (forall m, In m h -> exists Lm, lfind lh (m_version m) = Some Lm /\ Inv m Lm T) /\
+      (forall m, In m h -> m_version m <= m_version latest)
+  end.
+
+Lemma spec_from_incl st : forall ops h L lh T h' L' lh' T',
+  spec_from st (h, L, lh, T) ops = Ok (h', L', lh', T') -> incl h h'.
+Proof.
+  induction ops as [|o tl IH]; intros h L lh T h' L' lh' T' H; cbn [spec_from] in H.
+  - inversion H; subst. apply incl_refl.
+  - apply bind_ok in H as (m & _ & H). intros x Hx. apply (IH _ _ _ _ _ _ _ _ H). right; exact Hx.
+Qed.
+
+Lemma step_version st cur tl o m' : step st (cur :: tl) o = Ok m' -> m_version m' = m_version cur + 1.
+Proof.
+  intro Hs. destruct (is_restore o) eqn:Er.
+  - destruct o; try discriminate. cbn [step] in Hs. destruct (find_version (cur :: tl) v); [|discriminate].
+    inversion Hs; subst. reflexivity.
+  - assert (Hs' : bind (lower cur o) (fun t => build_manifest (Some cur) (m_stable cur) t) = Ok m')
+      by (destruct o; try discriminate; exact Hs).
+    apply bind_ok in Hs' as (t & _ & Hb). apply build_manifest_ids in Hb as (_ & _ & _ & Hv & _). exact Hv.
+Qed.
+
+Lemma spec_step_inv cur tl L lh T o m' :
+  SInv (cur :: tl, L, lh, T) -> NoDup (map f_id (m_frags cur)) ->
+  step true (cur :: tl) o = Ok m' -> op_ok cur o = true -> op_ok17 cur o = true ->
+  let fresh := handed_out (cur :: tl) m' in
+  let L' := spec_step (m_version m') (Some cur) fresh L lh o in
+  SInv (m' :: cur :: tl, L', (m_version m', L') :: lh, T ++ taint_step (Some cur) fresh o).
+Proof.
+  intros (HL & Hall & Hver) Hnd Hs Hok Hok17 fresh L'.
+  pose proof (step_version _ _ _ _ _ Hs) as Hv.
+  assert (Hnew : Inv m' L' (T ++ taint_step (Some cur) fresh o)).
+  { destruct (Hall cur (or_introl eq_refl)) as (Lc & Ec & Ic). rewrite HL in Ec. inversion Ec; subst Lc.
+    destruct (is_restore o) eqn:Er.
+    - destruct o; try discriminate. cbn [step] in Hs. destruct (find_version (cur :: tl) v) as [old|] eqn:Ef; [|discriminate].
+      inversion Hs; subst m'. apply find_version_in in Ef as [Hin Evo].
+      destruct (Hall old Hin) as (Lo & Eo & Io). unfold L'. cbn [spec_step taint_step]. rewrite <- Evo, Eo, app_nil_r.
+      apply restore_inv. exact Io.
+    - unfold L', fresh. eapply step_inv17; eauto. }
+  cbn [SInv]. split; [rewrite lfind_cons, N.eqb_refl; reflexivity|]. split.
+  - intros m [Hm|Hm].
+    + subst m. exists L'. split; [rewrite lfind_cons, N.eqb_refl; reflexivity | exact Hnew].
+    + destruct (Hall m Hm) as (Lm & Em & Im). exists Lm. split.
+      * rewrite lfind_cons. specialize (Hver m Hm). destruct (m_version m' =? m_version m) eqn:E; [apply N.eqb_eq in E; lia | exact Em].
+      * eapply Inv_weaken; [|exact Im]. intros r Hr. apply in_or_app. left; exact Hr.
+  - intros m [Hm|Hm]; [subst; lia | specialize (Hver m Hm); lia].
+Qed.
+
+Lemma spec_from_inv : forall ops h L lh T s',
+  SInv (h, L, lh, T) -> spec_from true (h, L, lh, T) ops = Ok s' -> run_ok17 true h ops = true ->
+  (forall m, In m (fst (fst (fst s'))) -> NoDup (map f_id (m_frags m))) -> SInv s'.
+Proof.
+  induction ops as [|o tl IH]; intros h L lh T s' Hinv Hr Hok Hnd; cbn [spec_from run_ok17] in *.
+  - inversion Hr; subst. exact Hinv.
+  - apply bind_ok in Hr as (m' & Hs & Hr). rewrite Hs in Hok. apply andb_true_iff in Hok as [Ho Hok].
+    destruct s' as [[[h' L'] lh'] T']. cbn [fst] in Hnd.
+    pose proof (spec_from_incl _ _ _ _ _ _ _ _ _ _ Hr) as Hincl.
+    eapply IH; [|exact Hr|exact Hok|exact Hnd].
+    destruct h as [|cur tl0].
+    + cbn [SInv] in Hinv. destruct Hinv as (E1 & E2 & E3). subst L lh T.
+      destruct (create_inv _ _ Hs) as [Hc Hv1]. cbn [SInv].
+      split; [rewrite lfind_cons, N.eqb_refl; reflexivity|]. split.
+      * intros m [Hm|[]]. subst m. eexists. split; [rewrite lfind_cons, N.eqb_refl; reflexivity | exact Hc].
+      * intros m [Hm|[]]. subst. lia.
+    + apply andb_true_iff in Ho as [Ho1 Ho2]. apply spec_step_inv; auto.
+      apply Hnd. apply Hincl. right. left. reflexivity.
+Qed.
+
+(* ================================================================ C17 *)
+(* every visible row of the latest version carries the ledger's last_updated_at, and the ledger's created_at
+   unless its row id is tainted (rewritten by an Update whose lookup missed, or inserted by an Update) *)
+Lemma versions_correct ops h L lh T :
+  spec_run true ops = Ok (h, L, lh, T) -> run_ok17 true [] ops = true -> frag_ids_unique h = true ->
+  forall latest tl rows, h = latest :: tl -> view latest = Ok rows ->
+  forall r c u, In (r, (c, u)) rows ->
+    exists c0, lget L r = Some (c0, u) /\ (~ In r T -> c = c0).
+Proof.
+  intros Hr Hok Hu latest tl rows Eh Hv r c u Hin.
+  assert (Hnd : forall m, In m h -> NoDup (map f_id (m_frags m))).
+  { intros m Hm. unfold frag_ids_unique in Hu. rewrite forallb_forall in Hu. apply nodupb_NoDup. apply Hu; exact Hm. }
+  pose proof (spec_from_inv ops [] [] [] [] _ (conj eq_refl (conj eq_refl eq_refl)) Hr Hok Hnd) as Hinv. subst h. cbn [SInv] in Hinv.
+  destruct Hinv as (HL & Hall & _). destruct (Hall latest (or_introl eq_refl)) as (Lm & Em & (I0 & I1 & I2 & I3 & I4)).
+  rewrite HL in Em. inversion Em; subst Lm.
+  unfold view in Hv. rewrite (view_frags_wf _ I1) in Hv. inversion Hv; subst rows.
+  apply in_flat_map in Hin as (f & Hf & Hx). destruct (I3 f _ Hf Hx) as (c0 & u0 & G1 & G2 & G3). cbn [fst snd] in *.
+  exists c0. rewrite <- (G3 eq_refl) in G1. split; [exact G1 | exact G2].
+Qed.
+
+(* a table with stable row ids can always be scanned with its version columns *)
+Lemma view_defined ops h L lh T :
+  spec_run true ops = Ok (h, L, lh, T) -> run_ok17 true [] ops = true -> frag_ids_unique h = true ->
+  forall m, In m h -> exists rows, view m = Ok rows.
+Proof.
+  intros Hr Hok Hu m Hm.
+  assert (Hnd : forall m, In m h -> NoDup (map f_id (m_frags m))).
+  { intros m0 Hm0. unfold frag_ids_unique in Hu. rewrite forallb_forall in Hu. apply nodupb_NoDup. apply Hu; exact Hm0. }
+  pose proof (spec_from_inv ops [] [] [] [] _ (conj eq_refl (conj eq_refl eq_refl)) Hr Hok Hnd) as Hinv. destruct h as [|latest tl]; [contradiction|].
+  cbn [SInv] in Hinv. destruct Hinv as (_ & Hall & _). destruct (Hall m Hm) as (Lm & _ & (_ & I1 & _)).
+  exists (flat_map vrows (m_frags m)). apply view_frags_wf. exact I1.
 Qed.
